@@ -44,7 +44,7 @@ _add(
 _add(
     "C13",
     rule="(a) RecordTensor built with (dt, duration, inclusive) incl. non-representable ratios over 7 storage kinds, id-filled to several fill levels and pointer positions, then 1-4 assignments of dt / duration / inclusive judged by the literal size formula and read(k) before/after; (b) add/edit/remove of shape constraints on an initialised record; (c) random reconstrain add/edit/remove + value assignment sequences on ShapedTensor (strict and non-strict, positive and negative dims, buffer/Parameter/None/empty) against a dict model. One evaluation = one assignment / reconstrain judged. distinct = (part, operation, grow/shrink/no-op, storage state and kind, size classes, strictness, dim sign) abstractions.",
-    required=["resize_readbacks", "temporal.grow.initialised", "temporal.shrink.initialised", "temporal.grow.uninitialised", "temporal.shrink.uninitialised", "recshape_ops", "shaped_reconstrain_ops", "shaped_refusals", "valid_flag_checks"],
+    required=["resize_readbacks", "temporal.grow.initialised", "temporal.shrink.initialised", "temporal.grow.uninitialised", "temporal.shrink.uninitialised", "recshape_ops", "shaped_reconstrain_ops", "shaped_refusals", "valid_flag_checks", "flag_toggles", "compatible_queries"],
     floor={"quick": 150, "thorough": 250},
     text="Held on every resize / reconstrain explored: each assignment of dt, duration, inclusive or a shape constraint on the real RecordTensor / ShapedTensor is followed by a comparison of the record size with the literal formula, of read(k) with the values read before (unique ids; zeros in new slots) and of the constraint bookkeeping with a dictionary model, including refusals that must have no side effects.",
     technique="runtime monitoring: before/after observation monitor + dict reference model on the real temporal setters and reconstrain over generated configurations",
@@ -60,7 +60,7 @@ _add(
          "arguments; (c) ISI of random rasters (time-first and time-last, ragged, empty); (d) Victor-Purpura laws on "
          "triples of spike-time vectors and against an independent dynamic programme. One evaluation = one "
          "(pair, sample time) / (distribution, parameters) / raster / triple; distinct = abstractions of those.",
-    required=["roundtrip_laws", "adjusted_bracket_laws", "linear_bracket_laws", "dist_laws", "isi_trains_checked", "vp_laws"],
+    required=["roundtrip_laws", "adjusted_bracket_laws", "linear_bracket_laws", "dist_laws", "isi_trains_checked", "vp_laws", "validity_queries"],
     floor={"quick": 100, "thorough": 200},
     text="Held on every input explored: algebraic laws that tie the numerical helpers to each other and to their "
          "definitions are evaluated on the real functions over dense grids and random inputs; a law that fails is "
@@ -135,7 +135,7 @@ _add(
          "functional trace forms on 5-30 step histories. One evaluation = one step / view / dump / clear judged "
          "against the closed form over the recorded event list. distinct = (reducer, operation, first/later, record "
          "size class, inplace, observation kind, dt, events/quiet, view mode and grid position) abstractions.",
-    required=["steps_checked", "views_checked", "dumps_checked", "clears", "functional_steps_checked", "dt_reassignments"],
+    required=["steps_checked", "views_checked", "dumps_checked", "clears", "functional_steps_checked", "dt_reassignments", "nonfloat_observations", "views_with_tolerance"],
     floor={"quick": 250, "thorough": 600},
     text="Held on every history explored: after each observation the value reported by the real reducer (run in "
          "float64) is compared with the closed-form sum over the recorded event list, views are compared with the value "
